@@ -60,6 +60,12 @@ ASSUMPTIONS = [
     "and keyed lists are driven on the real code and judged by the model-independent oracle only: compared, not proved "
     "(<Show> corresponds to the memoised conditional of the Coq model); Resource (serialising) and Transition inside "
     "<For> rows are not generated",
+    "leptos kind, idle points at which some resource is still loading: what a <Suspense> / a not yet established "
+    "<Transition> shows there depends on whether its readers ran before or after the fetch task marked the resource as "
+    "loading and on readers that were mounted only in the middle of the step (the schedule decides): the oracle demands "
+    "'children or fallback, nothing else' for them, 'children' for a Transition that had its children on screen at an "
+    "idle point with nothing loading, and judges everything else (texts, attributes, <Show> branches, <For> rows, "
+    "ErrorBoundary) strictly; with nothing loading every boundary must show its children and equal a fresh mount",
     "a boundary that is mounted by a step (a <Show> / <For> / ErrorBoundary switching to it) whose writes also re-trigger a "
     "resource it reads, and a Transition that was at a point where both children and fallback are accepted while the load "
     "continues, may show children or fallback until that load ends; "
@@ -712,6 +718,12 @@ def lnodes(t, s, res, shown=frozenset(), touched=frozenset()):
             return children + [f for f in fallback if f not in children]
         if t[2] & 1 and t[1] in shown:
             return children
+        if _PENDING_POINT[0]:
+            # while some resource is loading, what a boundary shows depends on whether its readers ran before or
+            # after the fetch task marked the resource as loading, and on readers that were mounted only in the
+            # middle of the step: the schedule decides. Demanded here: children or fallback, nothing else (and an
+            # established Transition keeps its children, above); the strict rules apply when nothing is loading
+            return children + [f for f in fallback if f not in children]
         if any(res[r][1] for r in active):
             return fallback
         if any(res[r][1] and (t[1], r) in touched for r in range(len(res))):
@@ -742,6 +754,7 @@ def lnodes(t, s, res, shown=frozenset(), touched=frozenset()):
 
 _MAYBE_SHOWN = set()
 _AMBIG = set()
+_PENDING_POINT = [False]
 
 
 def boundary_readers(t, out):
@@ -973,7 +986,8 @@ def oracle_leptos(item, impl):
                 if res[r][1] is not None:
                     reg_next.add((l, r))
                     touched.add((l, r))
-            if is_transition and not any(res[r][1] is not None and (l, r) in touched for r in range(len(res))):
+            # established only when NOTHING is loading: then a mounted Transition has its children on screen for sure
+            if is_transition and not any(res[r][1] is not None for r in range(len(res))):
                 shown.add(l)
 
     def finish(r):
@@ -1054,10 +1068,11 @@ def oracle_leptos(item, impl):
         active_transitions(tree, s, prev_active)
         got = [plain(x) for x in entry[1]]
         state = [(v, fl is not None, settled_value[r]) for r, (v, fl, _) in enumerate(res)]
+        pend = any(x[1] for x in state)
+        _PENDING_POINT[0] = pend
         _AMBIG.clear()
         want = lnodes(tree, s, state, frozenset(shown), frozenset(touched))
         _MAYBE_SHOWN.update(_AMBIG)
-        pend = any(x[1] for x in state)
         if got not in want:
             return ("idle point %d (%s): the mounted DOM is not what the components show for the current signal "
                     "values and resource states" % (k, "a resource is pending" if pend else "no resource pending"))
